@@ -98,9 +98,32 @@ def features(sc):
             tot = 1.55
         else:
             tot = sum(dz) if dz else 1.2
-        f["deepened"] = bool(tot < zmax + 0.1 - 1e-9)
+        f["deepened"] = bool(round(tot, 2) < zmax + 0.1)      # the implementation's own (floating-point) loop test
     except Exception:
         f["deepened"] = None
+    try:
+        dzl = (soil.get("kw") or {}).get("dz")
+        f["undeepenable"] = bool(f.get("deepened") and dzl and all(float(d) >= 0.25 for d in dzl))
+    except Exception:
+        f["undeepenable"] = None
+    try:
+        import datetime as _dt
+        import pandas as _pd
+        s0, e0 = _pd.to_datetime(sc["start"]).date(), _pd.to_datetime(sc["end"]).date()
+        pm = (sc.get("crop") or {}).get("planting_date", "01/01").split("/")
+        f["leap_day_date"] = any(str(x).endswith("02/29") or str(x).endswith("2/29") for x in (sc["start"], sc["end"], "/".join(pm), (sc.get("crop") or {}).get("harvest_date") or ""))
+        has = False
+        for y in range(s0.year, e0.year + 1):
+            try:
+                d = _dt.date(y, int(pm[0]), int(pm[1]))
+            except ValueError:
+                continue
+            if s0 <= d < e0:
+                has = True
+        f["no_season_in_window"] = not has
+    except Exception:
+        f["leap_day_date"] = None
+        f["no_season_in_window"] = None
     gw = sc.get("gw") or {}
     f["gw_variable"] = gw.get("method") == "Variable" and len(gw.get("dates", [])) > 1
     try:
